@@ -74,9 +74,15 @@ struct ctx {                 /* one interpreter (one per thread in thread mode) 
   int cb_nlate;
   char **cb_log; int *cb_verdict; int *cb_dataok; int cb_nlog, cb_caplog;
   int cookie;
+  int tid;                   /* thread id in thread mode */
+  int cb_yield;              /* scheduled thread mode: the callback hands the turn over and waits for its next slot */
 };
 
 static struct ctx main_ctx;
+/* deterministic schedule (C18 forward replay): sched[pos] = id of the thread that runs next; a slot is one command, or
+   the part of a reading command up to / after a yielding callback */
+static int *sched = NULL; static int sched_len = 0; static volatile int sched_pos = 0;
+static pthread_mutex_t sched_mu = PTHREAD_MUTEX_INITIALIZER; static pthread_cond_t sched_cv = PTHREAD_COND_INITIALIZER;
 static char *watch_case = NULL;
 
 /* ---------- JSON output ---------- */
@@ -170,6 +176,12 @@ static bool the_callback(const char *filename, const void *data) {
   int ok = c && c->cookie == 0x5eed;
   if (!ok) c = &main_ctx;
   c->cb_calls++;
+  if (c->cb_yield && sched) {     /* the library is in the middle of a read: let the scheduled other threads run their slots now */
+    pthread_mutex_lock(&sched_mu);
+    sched_pos++; pthread_cond_broadcast(&sched_cv);
+    while (sched_pos < sched_len && sched[sched_pos] != c->tid) pthread_cond_wait(&sched_cv, &sched_mu);
+    pthread_mutex_unlock(&sched_mu);
+  }
   bool verdict = true;
   if (c->cb_calls <= 64 && (c->cb_reject_mask >> (c->cb_calls - 1) & 1)) verdict = false;
   if (c->cb_reject_path && samepath(c->cb_reject_path, filename)) verdict = false;
@@ -277,9 +289,6 @@ static void dump_obj(FILE *o, econf_file *kf, int ext) {
 static int run_cmd(struct ctx *c, char **t, int nt);
 
 struct thr_arg { struct ctx c; char *script; int id; };
-/* deterministic call-level schedule (C18 forward replay): sched[pos] = id of the thread that runs its next command */
-static int *sched = NULL; static int sched_len = 0; static volatile int sched_pos = 0;
-static pthread_mutex_t sched_mu = PTHREAD_MUTEX_INITIALIZER; static pthread_cond_t sched_cv = PTHREAD_COND_INITIALIZER;
 static void *thr_main(void *p) {
   struct thr_arg *a = p;
   char *save = NULL;
@@ -356,16 +365,20 @@ static int run_cmd(struct ctx *c, char **t, int nt) {
     fprintf(o, "{\"op\":\"newopt\",\"h\":%d", h); jrc(o, e); fprintf(o, ",\"obj\":%s}\n", c->H[h] ? "true" : "false"); free(s); return 0; }
 
   /* ----- reads ----- */
-  if (!strcmp(op, "readfile") || !strcmp(op, "readfilecb")) {
+  if (!strcmp(op, "readfile") || !strcmp(op, "readfilecb") || !strcmp(op, "readfilecby")) {
     int h = HND(1), cb = op[8] == 'c'; char *p = tokstr(ARG(2), NULL), *d = tokstr(ARG(3), NULL), *cm = tokstr(ARG(4), NULL);
+    c->cb_yield = op[strlen(op) - 1] == 'y';
     if (cb) e = econf_readFileWithCallback(&c->H[h], p, d, cm, the_callback, c); else e = econf_readFile(&c->H[h], p, d, cm);
+    c->cb_yield = 0;
     fprintf(o, "{\"op\":\"%s\",\"h\":%d", op, h); jrc(o, e); fprintf(o, ",\"obj\":%s", c->H[h] ? "true" : "false");
     if (cb) jcblog(c);
     fputs("}\n", o); free(p); free(d); free(cm); return 0; }
-  if (!strcmp(op, "readdirs") || !strcmp(op, "readdirscb")) {
+  if (!strcmp(op, "readdirs") || !strcmp(op, "readdirscb") || !strcmp(op, "readdirscby")) {
     int h = HND(1), cb = op[8] == 'c'; char *a[6]; for (int i = 0; i < 6; i++) a[i] = tokstr(ARG(2 + i), NULL);
+    c->cb_yield = op[strlen(op) - 1] == 'y';
     if (cb) e = econf_readDirsWithCallback(&c->H[h], a[0], a[1], a[2], a[3], a[4], a[5], the_callback, c);
     else e = econf_readDirs(&c->H[h], a[0], a[1], a[2], a[3], a[4], a[5]);
+    c->cb_yield = 0;
     fprintf(o, "{\"op\":\"%s\",\"h\":%d", op, h); jrc(o, e); fprintf(o, ",\"obj\":%s", c->H[h] ? "true" : "false");
     if (cb) jcblog(c);
     fputs("}\n", o); for (int i = 0; i < 6; i++) free(a[i]); return 0; }
@@ -750,7 +763,7 @@ static int run_cmd(struct ctx *c, char **t, int nt) {
       a[i].id = i;
       char *p = tokstr(ARG(3 + i), NULL); FILE *f = fopen(p, "rb"); size_t cap = 1 << 16, len = 0; char *buf = malloc(cap);
       if (f) { size_t r; while ((r = fread(buf + len, 1, cap - len - 1, f)) > 0) { len += r; if (cap - len < 2) { cap *= 2; buf = realloc(buf, cap); } } fclose(f); }
-      buf[len] = 0; a[i].script = buf; a[i].c.cookie = 0x5eed;
+      buf[len] = 0; a[i].script = buf; a[i].c.cookie = 0x5eed; a[i].c.tid = i;
       char *op2; if (asprintf(&op2, "%s.out", p) < 0) op2 = NULL; a[i].c.out = fopen(op2, "w"); free(op2); free(p);
     }
     for (int i = 0; i < n && i < 64; i++) pthread_create(&th[i], NULL, thr_main, &a[i]);
